@@ -32,8 +32,17 @@ LE32(v) == <<v % 256, (v \div 256) % 256, (v \div 65536) % 256, (v \div 16777216
 BE16(v) == <<(v \div 256) % 256, v % 256>>
 BE32(v) == <<(v \div 16777216) % 256, (v \div 65536) % 256, (v \div 256) % 256, v % 256>>
 Fill(n, f) == [k \in 1..n |-> f]
-RECURSIVE Concat(_)
-Concat(ss) == IF Len(ss) = 0 THEN <<>> ELSE Head(ss) \o Concat(Tail(ss))
+\* the same sequence as an explicit tuple (TLC keeps [k \in 1..n |-> e] as an unevaluated
+\* function and would re-evaluate e on every access)
+Tup(s) == SubSeq(s, 1, Len(s))
+\* concatenation of a sequence of sequences (by halves: no Tail, so a sequence given as a
+\* function expression is indexed, never copied)
+RECURSIVE ConcatRange(_, _, _)
+ConcatRange(ss, lo, hi) ==
+  IF lo > hi THEN <<>>
+  ELSE IF lo = hi THEN ss[lo]
+  ELSE LET mid == (lo + hi) \div 2 IN ConcatRange(ss, lo, mid) \o ConcatRange(ss, mid + 1, hi)
+Concat(ss) == ConcatRange(ss, 1, Len(ss))
 RECURSIVE SumTo(_, _)
 SumTo(s, k) == IF k = 0 THEN 0 ELSE s[k] + SumTo(s, k - 1)
 Rev(s) == [k \in 1..Len(s) |-> s[Len(s) + 1 - k]]
@@ -82,7 +91,7 @@ IsTexTpl(t) ==
 
 \* ------------------------------------------------------------------ placing items
 \* Items are placed one after the other from `start`, `gap` filler bytes before each.
-PlanPos(start, sizes, gap) == [k \in 1..Len(sizes) |-> start + gap * k + SumTo(sizes, k - 1)]
+PlanPos(start, sizes, gap) == Tup([k \in 1..Len(sizes) |-> start + gap * k + SumTo(sizes, k - 1)])
 PlanEnd(start, sizes, gap) == start + gap * Len(sizes) + SumTo(sizes, Len(sizes))
 IdxOf(ids, id) == CHOOSE k \in 1..Len(ids) : ids[k] = id
 \* rendering: filler, item, filler, item ...
@@ -120,7 +129,7 @@ CtpkSize(v, id) ==
     [] id[1] = "bsz"   -> 4 * Len(v)
 CtpkPlan(v, p) ==
   LET ids   == CtpkIds(v, p)
-      sizes == [k \in 1..Len(ids) |-> CtpkSize(v, ids[k])]
+      sizes == Tup([k \in 1..Len(ids) |-> CtpkSize(v, ids[k])])
       start == 32 + 32 * Len(v)
   IN [ids |-> ids, pos |-> PlanPos(start, sizes, p.gap), end |-> PlanEnd(start, sizes, p.gap)]
 CtpkAt(pl, id) == pl.pos[IdxOf(pl.ids, id)]
@@ -197,13 +206,13 @@ BchCmdSize      == 32
 BchHeaderSize(p) == IF p.compat > 32 THEN 68 ELSE 60
 BchCIds(v, p) == IF p.tableFirst THEN << <<"tab", 0>> >> \o Tagged("st", Order(Len(v), p.rev))
                  ELSE Tagged("st", Order(Len(v), p.rev)) \o << <<"tab", 0>> >>
-BchCSizes(v, p) == [k \in 1..(Len(v) + 1) |-> IF BchCIds(v, p)[k][1] = "tab" THEN 4 * Len(v) ELSE BchStructSize]
+BchCSizes(v, p) == Tup([k \in 1..(Len(v) + 1) |-> IF BchCIds(v, p)[k][1] = "tab" THEN 4 * Len(v) ELSE BchStructSize])
 BchSIds(v, p) == Tagged("name", Order(Len(v), ~p.rev))
-BchSSizes(v, p) == [k \in 1..Len(v) |-> Len(Utf8Name(v[BchSIds(v, p)[k][2]].name)) + 1]
+BchSSizes(v, p) == Tup([k \in 1..Len(v) |-> Len(Utf8Name(v[BchSIds(v, p)[k][2]].name)) + 1])
 BchMIds(v, p) == Tagged("cmd", Order(Len(v), ~p.rev))
 BchMSizes(v, p) == [k \in 1..Len(v) |-> BchCmdSize]
 BchRIds(v, p) == Tagged("pay", Order(Len(v), p.rev))
-BchRSizes(v, p) == [k \in 1..Len(v) |-> Len(v[BchRIds(v, p)[k][2]].payload)]
+BchRSizes(v, p) == Tup([k \in 1..Len(v) |-> Len(v[BchRIds(v, p)[k][2]].payload)])
 \* offsets inside the sections
 BchCOff(v, p, id) == PlanPos(BchContentsHead, BchCSizes(v, p), p.gap)[IdxOf(BchCIds(v, p), id)]
 BchSOff(v, p, i)  == PlanPos(p.slead, BchSSizes(v, p), 0)[IdxOf(BchSIds(v, p), <<"name", i>>)]
@@ -317,7 +326,7 @@ CgfxSize(v, id) ==
     [] id[1] = "pay"  -> Len(v[id[2]].payload)
 CgfxPlan(v, p) ==
   LET ids   == CgfxIds(v, p)
-      sizes == [k \in 1..Len(ids) |-> CgfxSize(v, ids[k])]
+      sizes == Tup([k \in 1..Len(ids) |-> CgfxSize(v, ids[k])])
   IN [ids |-> ids, pos |-> PlanPos(156, sizes, p.gap), end |-> PlanEnd(156, sizes, p.gap)]
 CgfxAt(pl, id) == pl.pos[IdxOf(pl.ids, id)]
 CgfxExtents(v, p) ==
@@ -403,7 +412,7 @@ TplSize(v, id) ==
     [] id[1] = "pal" -> Len(v[id[2]].pal)
 TplPlan(v, p) ==
   LET ids   == TplIds(v, p)
-      sizes == [k \in 1..Len(ids) |-> TplSize(v, ids[k])]
+      sizes == Tup([k \in 1..Len(ids) |-> TplSize(v, ids[k])])
   IN [ids |-> ids, pos |-> PlanPos(12, sizes, p.gap), end |-> PlanEnd(12, sizes, p.gap)]
 TplAt(pl, id) == pl.pos[IdxOf(pl.ids, id)]
 \* the payload of a TPL texture = its image data (the palette has its own extents)
